@@ -839,7 +839,7 @@ pub fn check_c05_c10_c19(cx: &Ctx, ix: &Index, sc: &mut SigCache) -> Report {
                             r.violate("C10", "round-chain-broken", format!("node {} reports leaving round {} but was in {}", i, from, prev), wit(cx, &[pos]));
                         }
                         prev_round.insert(i, *to);
-                        let need = to - 1;
+                        let need = to.saturating_sub(1);
                         let by_qc = k.qc_rounds.contains(&need);
                         let by_tc = k.tc_rounds.contains(&need);
                         if !(by_qc || by_tc) {
@@ -850,7 +850,7 @@ pub fn check_c05_c10_c19(cx: &Ctx, ix: &Index, sc: &mut SigCache) -> Report {
                                 wit(cx, &[pos]),
                             );
                         }
-                        if to - from > 1 {
+                        if to.saturating_sub(*from) > 1 {
                             r.sit("C10:jump_gt_1");
                             r.count("C10.jumps_gt_1", 1);
                         }
